@@ -402,3 +402,63 @@ Lemma tlscfg_numbers : (c_tls_VersionTLS12 = 771 /\ c_tls_RequireAndVerifyClient
                         c_dtls_RequireExtendedMasterSecret = 1 /\ c_tls_VersionTLS13 = 772 /\
                         c_tls_VersionTLS11 = 770 /\ c_dtls_NoClientCert = 0 /\ c_tls_NoClientCert = 0)%N.
 Proof. repeat split; reflexivity. Qed.
+
+(* ---------------------------------------------------------------- closed statements
+   (the section is closed: every statement is quantified over the handshake and its contract) *)
+Lemma C18_exporter_tls_lemma : forall now H, handshake_contract now H ->
+  forall i t srv c,
+    ei_tls i = Some t -> ei_proto i = "tcp" -> init_exporting_process H i srv = ROk c ->
+    exists v sc, c = ConnTLS v /\ (c_tls_VersionTLS12 <= v)%N /\ (v <= ep_max srv)%N /\ ep_kind srv = KTls /\
+      peer_cert srv = Some sc /\ chains_to (pool_of (et_ca t)) sc = true /\ valid_at now sc = true /\
+      name_matches (tls_expected_name (et_server_name t) (ei_host i)) sc = true.
+Proof. intros now H (A & B & C & D). apply exporter_tls_authenticates; assumption. Qed.
+
+Lemma C18_collector_client_ca_lemma : forall now H, handshake_contract now H ->
+  forall c p cl k,
+    ci_enc c = true -> ci_proto c = "tcp" -> ci_ca c = Some p -> collector_session H c cl = Some k ->
+    exists v cc, k = ConnTLS v /\ (c_tls_VersionTLS12 <= v)%N /\ ep_kind cl = KTls /\
+      peer_cert cl = Some cc /\ chains_to (pool_of p) cc = true /\ valid_at now cc = true.
+Proof. intros now H (A & B & C & D). apply collector_client_ca; assumption. Qed.
+
+Lemma C18_exporter_dtls_lemma : forall now H, handshake_contract now H ->
+  forall i t srv c,
+    ei_tls i = Some t -> ei_proto i = "udp" -> init_exporting_process H i srv = ROk c ->
+    c = ConnDTLS /\ ep_kind srv = KDtls /\
+    exists sc, peer_cert srv = Some sc /\ chains_to (pool_of (et_ca t)) sc = true /\ valid_at now sc = true /\
+      (et_server_name t <> "" -> is_ip H (et_server_name t) = false -> name_matches (et_server_name t) sc = true).
+Proof. intros now H (A & B & C & D). apply exporter_dtls_verifies; assumption. Qed.
+
+Lemma C18_never_plain_lemma : forall now H, handshake_contract now H ->
+  (forall i srv c, ei_tls i <> None -> init_exporting_process H i srv = ROk c ->
+     (exists v, c = ConnTLS v /\ ep_kind srv = KTls) \/ (c = ConnDTLS /\ ep_kind srv = KDtls) \/ c = ConnNil) /\
+  (forall c cl k, ci_enc c = true -> collector_session H c cl = Some k ->
+     (exists v, k = ConnTLS v /\ (c_tls_VersionTLS12 <= v)%N /\ ep_kind cl = KTls) \/ (k = ConnDTLS /\ ep_kind cl = KDtls)) /\
+  (forall proto, exporter_transport true proto <> TPlain) /\
+  (forall proto, collector_transport true proto <> TPlain).
+Proof.
+  intros now H (A & B & C & D). split; [|split; [|split]].
+  - intros. eapply exporter_never_plain; eauto.
+  - intros. eapply collector_never_plain; eauto.
+  - exact exporter_decision_never_plain.
+  - exact collector_decision_never_plain.
+Qed.
+
+Lemma C18_decision_lemma : forall H i srv c,
+  init_exporting_process H i srv = ROk c ->
+  conn_transport c = exporter_transport (match ei_tls i with Some _ => true | None => false end) (ei_proto i).
+Proof. exact exporter_conn_decision. Qed.
+
+Lemma C18_oracles_lemma : forall now H, handshake_contract now H ->
+  (forall i srv, exporter_ok now (is_ip H) i srv (init_exporting_process H i srv) = true) /\
+  (forall c cl, collector_ok now c cl (collector_session H c cl) = true).
+Proof.
+  intros now H (A & B & C & D). split.
+  - intros. apply exporter_ok_holds; assumption.
+  - intros. apply collector_ok_holds with (H := H); assumption.
+Qed.
+
+(* the instance the driver computes with *)
+Lemma C18_reference_lemma : forall now,
+  (forall i srv, exporter_ok now ref_is_ip i srv (init_exporting_process (ref_handshake now) i srv) = true) /\
+  (forall c cl, collector_ok now c cl (collector_session (ref_handshake now) c cl) = true).
+Proof. intro now. exact (C18_oracles_lemma now (ref_handshake now) (ref_meets_contract now)). Qed.
